@@ -397,6 +397,24 @@ fn interp2() {
 }
 sf_stubs! { #[kani::unwind(5)] fn c06_interpolate_t2() { interp2() } }
 
+/// threshold 1: interpolating a single share returns its value (whatever the point)
+fn interp1() {
+    ro_reset();
+    let x1: u64 = kani::any();
+    let y1: u64 = kani::any();
+    kani::assume(x1 < Q && y1 < Q);
+    let v = [Share { x: mk(x1), y: vec![mk(y1)] }];
+    let r = star_sharks::interpolate(&v);
+    assert!(r.is_ok());
+    let out = r.as_ref().unwrap();
+    assert!(out.len() == 24);
+    let got = u64::from_le_bytes([out[0], out[1], out[2], out[3], out[4], out[5], out[6], out[7]]);
+    assert!(got == y1, "a single share interpolates to its own value (t = 1)");
+    kani::cover!(true, "reached");
+    core::mem::forget((r, v));
+}
+sf_stubs! { #[kani::unwind(5)] fn c06_interpolate_t1() { interp1() } }
+
 fn interp3() {
     ro_reset();
     let x1: u64 = kani::any();
